@@ -26,6 +26,8 @@ def noTry : Expr → Bool
   | .readA _ => true
   | .raise _ => true
   | .try_ _ _ _ => false
+  | .tryRe _ _ _ => false
+  | .tryFin _ _ => false
 def noTryList : List Expr → Bool
   | [] => true
   | e :: es => noTry e && noTryList es
@@ -46,6 +48,8 @@ def namesIn (vis : RefId → Bool) : Expr → Bool
   | .readA _ => true
   | .raise _ => true
   | .try_ a _ b => namesIn vis a && namesIn vis b
+  | .tryRe a _ b => namesIn vis a && namesIn vis b
+  | .tryFin a b => namesIn vis a && namesIn vis b
 def namesInList (vis : RefId → Bool) : List Expr → Bool
   | [] => true
   | e :: es => namesIn vis e && namesInList vis es
@@ -147,6 +151,8 @@ theorem compile_pw (R : RefId → Prop) (vis : RefId → Bool) (hvis : ∀ r, vi
       | none => exact (hh _ _).1.2
   | .raise e, k, h, _, _, _, hh => by simp only [compile]; exact (hh _ _).1
   | .try_ a c b, k, h, ht, _, _, _ => by simp [noTry] at ht
+  | .tryRe a c b, k, h, ht, _, _, _ => by simp [noTry] at ht
+  | .tryFin a b, k, h, ht, _, _, _ => by simp [noTry] at ht
 theorem compileArgs_pw (R : RefId → Prop) (vis : RefId → Bool) (hvis : ∀ r, vis r = true → R r)
     (ar : CellId → Option Nat) (params : List Val) :
     ∀ (es : List Expr) (k : List Val → Prog) (h : Bool → Err → Prog), noTryList es = true →
@@ -192,6 +198,12 @@ theorem scope_facts (vis : RefId → Bool) (i : CellId) : ∀ (e : Expr),
   | .readA _ => by simp [scopeExpr, namesIn, noTry, callsBelowId]
   | .raise _ => by simp [scopeExpr, namesIn, noTry, callsBelowId]
   | .try_ a c b => by
+    have ha := scope_facts vis i a; have hb := scope_facts vis i b
+    simp [scopeExpr, namesIn, noTry, callsBelowId, ha, hb]
+  | .tryRe a c b => by
+    have ha := scope_facts vis i a; have hb := scope_facts vis i b
+    simp [scopeExpr, namesIn, noTry, callsBelowId, ha, hb]
+  | .tryFin a b => by
     have ha := scope_facts vis i a; have hb := scope_facts vis i b
     simp [scopeExpr, namesIn, noTry, callsBelowId, ha, hb]
 theorem scopes_facts (vis : RefId → Bool) (i : CellId) : ∀ (es : List Expr),
